@@ -1,28 +1,39 @@
 // C15 — a stalled consumer cannot delay others or corrupt its own framing.
 //
 // Consumers of every protocol (RTMP, HTTP-FLV, WebSocket-FLV, HTTP-TS, RTSP
-// interleaved) are attached to one stream; some of them stop reading at a
-// generated publish position (the in-memory connection's receive window is
-// closed, so lal's writer goroutine blocks exactly as on a full TCP window) while
-// the write queues are made small so that queue-full occurs within a few
-// messages.  Oracle:
+// interleaved, RTSP over WebSocket) are attached to one stream; some of them stop
+// reading at a generated publish position (the in-memory connection's receive
+// window is closed, so lal's writer goroutine blocks exactly as on a full TCP
+// window) or keep reading at a generated slow rate through a small receive window,
+// while the write queues are made small so that queue-full occurs within a few
+// messages.  A second stream with its own publisher and a healthy consumer runs on
+// the same server.  Oracle:
 //
 //	(S1) the publisher is never blocked: every message is consumed by lal while
-//	     the stalled consumers stay stalled;
-//	(S2) healthy consumers receive everything up to the end marker;
-//	(S3) after the stalled consumer resumes, whatever it finally received parses
-//	     to the end with the reference decoder of its protocol and consists of
-//	     whole published units in order (whole units dropped only);
+//	     the stalled consumers stay stalled, and the time lal needs per message does
+//	     not grow because of them (measured against a baseline taken in the same
+//	     case before anybody stalls, see latency_test.go for the rule);
+//	(S2) healthy consumers receive every message published while others are
+//	     stalled, up to the end marker, without the delivery time growing;
+//	(S3) whatever a consumer finally received (also the continuation after it
+//	     resumed in the middle of the stall phase) parses to the end with the
+//	     reference decoder of its protocol and consists of whole published units in
+//	     order (whole units dropped only); a consumer that resumed and stays
+//	     connected receives units published after it resumed;
 //	(S4) a consumer that stays stalled is disconnected by two liveness sweeps
-//	     (Group.Tick) or by its write timeout.
+//	     or by its write timeout; healthy consumers are not;
+//	(S5) the second stream is unaffected: its publisher is not delayed, its consumer
+//	     receives every unit, and it survives the sweeps.
 //
-// Not asserted: how many or which units are dropped; exact latencies.
+// Not asserted: how many or which units a stalled / slow consumer loses; that an
+// RTSP consumer receives all fragments of a NAL unit (the protocol unit is the RTP
+// packet); absolute latencies (no bare wall-clock threshold is ever a violation).
 package c15
 
 import (
 	"bytes"
-	"crypto/sha256"
 	"fmt"
+	"os"
 	"testing"
 	"time"
 
@@ -41,75 +52,318 @@ import (
 	"verif/ref/rtpref"
 	"verif/ref/rtspref"
 	"verif/ref/tsref"
-	"verif/ref/wsref"
 )
 
 type Cons struct {
-	Kind    string `json:"kind"`     // rtmp | flv | wsflv | ts | rtsp | wsrtsp
-	Stall   bool   `json:"stall"`    // stops reading at StallAt
-	StallAt int    `json:"stall_at"` // after items[0..StallAt) were processed
-	End     string `json:"end"`      // resume | sweep | write-timeout  (how the stall ends)
+	Kind     string `json:"kind"`      // rtmp | flv | wsflv | ts | rtsp | wsrtsp
+	Stall    bool   `json:"stall"`     // faulty consumer (stops reading or reads slowly from StallAt on)
+	Mode     string `json:"mode"`      // "" healthy | "stall" stops reading | "slow" reads Rate bytes per published message through a Window-byte receive window
+	Window   int    `json:"window"`    // slow: receive window, 256..4096 bytes
+	Rate     int    `json:"rate"`      // slow: bytes read per published message
+	StallAt  int    `json:"stall_at"`  // after items[0..StallAt) were processed
+	End      string `json:"end"`       // resume | sweep | write-timeout  (how the stall ends)
+	ResumeAt int    `json:"resume_at"` // End == resume: -1 after the stall phase, k >= 0 before stall-phase message k
+	Ping     int    `json:"ping"`      // rtsp / wsrtsp: send an OPTIONS keep-alive before stall-phase message Ping (-1: never)
 }
 
 type Case struct {
-	Queue    int        `json:"queue"` // write queue size for every session kind
-	Merge    int        `json:"merge"`
-	Codecs   gen.Codecs `json:"codecs"`
-	Items    []gen.Item `json:"items"`
-	Cons     []Cons     `json:"cons"`
-	ExtraMsg int        `json:"extra_msg"` // messages published while the stall lasts (beyond the queue size)
+	Queue      int        `json:"queue"` // write queue size for the sessions that will stall
+	Merge      int        `json:"merge"`
+	Gop        int        `json:"gop"` // GOP cache size of the RTMP / FLV / TS outputs
+	Codecs     gen.Codecs `json:"codecs"`
+	Items      []gen.Item `json:"items"`
+	Cons       []Cons     `json:"cons"`
+	ExtraMsg   int        `json:"extra_msg"`   // messages published while the stall lasts (beyond the queue size)
+	Baseline   int        `json:"baseline"`    // messages published (and timed) before anybody stalls; 0 = no latency judgement
+	StallLen   int        `json:"stall_len"`   // NAL length of the baseline / stall-phase frames (> 4096: several RTMP chunks, > 1400: FU-A)
+	Second     bool       `json:"second"`      // a second stream with its own publisher and healthy consumer
+	SecondKind string     `json:"second_kind"` // rtmp | flv | wsflv | ts
 }
 
 func genCase(t *rapid.T) Case {
 	var c Case
 	c.Queue = rapid.SampledFrom([]int{3, 4, 5, 8, 16, 32}).Draw(t, "queue")
 	c.Merge = rapid.SampledFrom([]int{0, 0, 300}).Draw(t, "merge")
-	o := gen.StreamOpts{Video: []string{"avc", "avc", "hevc"}, Audio: []string{"aac", "aac", "g711a", ""}, MaxGops: 3, MaxGopLen: 4, MaxNalLen: 1200, MultiNal: true}
+	c.Gop = rapid.SampledFrom([]int{0, 0, 1, 2}).Draw(t, "gop")
+	maxNal := 1200
+	if rapid.IntRange(0, 2).Draw(t, "bigNal") == 2 {
+		maxNal = 9000 // messages of several RTMP chunks, FU-A fragmentation, long PES packets
+	}
+	o := gen.StreamOpts{Video: []string{"avc", "avc", "hevc"}, Audio: []string{"aac", "aac", "g711a", ""}, MaxGops: 3, MaxGopLen: 4, MaxNalLen: maxNal, MultiNal: true}
 	c.Codecs, c.Items = gen.GenStream(t, o)
-	c.ExtraMsg = rapid.IntRange(4, 30).Draw(t, "extra")
+	c.ExtraMsg = rapid.IntRange(6, 30).Draw(t, "extra")
+	c.Baseline = rapid.SampledFrom([]int{8, 0, 6, 10}).Draw(t, "baseline")
+	c.StallLen = rapid.SampledFrom([]int{200, 200, 1500, 4200, 9000}).Draw(t, "stallLen")
 	n := rapid.IntRange(1, 5).Draw(t, "ncons")
 	kinds := []string{"rtmp", "flv", "wsflv", "ts", "rtsp", "wsrtsp"}
 	for i := 0; i < n; i++ {
-		k := Cons{Kind: rapid.SampledFrom(kinds).Draw(t, "kind")}
-		k.Stall = rapid.IntRange(0, 2).Draw(t, "stall") != 0
+		k := Cons{Kind: rapid.SampledFrom(kinds).Draw(t, "kind"), ResumeAt: -1, Ping: -1}
+		k.Mode = rapid.SampledFrom([]string{"", "stall", "stall", "slow"}).Draw(t, "mode")
+		k.Stall = k.Mode != ""
 		k.StallAt = rapid.IntRange(0, len(c.Items)).Draw(t, "stallAt")
+		if k.Mode == "slow" {
+			k.Window = rapid.IntRange(256, 4096).Draw(t, "window")
+			k.Rate = rapid.SampledFrom([]int{16, 64, 200, 700, 2000, 4096}).Draw(t, "rate")
+		}
 		k.End = rapid.SampledFrom([]string{"resume", "resume", "sweep", "write-timeout"}).Draw(t, "end")
 		if k.End == "write-timeout" && (k.Kind == "rtmp" || k.Kind == "rtsp" || k.Kind == "wsrtsp") {
 			k.End = "sweep" // their write timeout (10 s) is not configurable; the sweep is what disconnects them
 		}
+		if k.Stall && k.End == "resume" && rapid.Bool().Draw(t, "midStall") {
+			k.ResumeAt = rapid.IntRange(0, c.Queue+c.ExtraMsg-1).Draw(t, "resumeAt")
+		}
+		if k.Stall && (k.Kind == "rtsp" || k.Kind == "wsrtsp") && rapid.Bool().Draw(t, "keepAlive") {
+			k.Ping = rapid.IntRange(0, c.Queue+c.ExtraMsg-1).Draw(t, "ping")
+		}
 		c.Cons = append(c.Cons, k)
 	}
 	// one healthy consumer per case at least
-	c.Cons = append(c.Cons, Cons{Kind: rapid.SampledFrom(kinds).Draw(t, "healthyKind")})
+	c.Cons = append(c.Cons, Cons{Kind: rapid.SampledFrom(kinds).Draw(t, "healthyKind"), ResumeAt: -1, Ping: -1})
+	c.Second = rapid.IntRange(0, 2).Draw(t, "second") != 0
+	if c.Second {
+		c.SecondKind = rapid.SampledFrom([]string{"flv", "rtmp", "wsflv", "ts"}).Draw(t, "secondKind")
+	}
 	return c
 }
 
-const stream = "c15stream"
-
-type rtspSub struct {
-	ws     *wsref.Stream // non-nil for RTSP over WebSocket
-	conn   *memconn.Conn
-	cl     *rtspref.Client
-	frames chan rtspref.Frame
-	err    chan error
-	got    []rtspref.Frame
-}
+const (
+	stream  = "c15stream"
+	stream2 = "c15other"
+)
 
 type attached struct {
 	spec Cons
-	rc   *lalclient.Consumer
-	ts   *lalclient.TsConsumer
+	rc   *sub
+	ts   *tsSub
 	rs   *rtspSub
 	conn *memconn.Conn
+	pc   *pacer
+
+	second    bool // the consumer of the second stream
+	resumedAt int  // len(P) when it resumed in the middle of the stall phase (-1: it did not)
+	slowOn    bool
 }
 
-func recKey(r lalclient.Rec) [32]byte {
-	h := sha256.New()
-	h.Write([]byte{r.Type, byte(r.Ts >> 24), byte(r.Ts >> 16), byte(r.Ts >> 8), byte(r.Ts)})
-	h.Write(r.Payload)
-	var k [32]byte
-	copy(k[:], h.Sum(nil))
-	return k
+func (a *attached) kind() string { return a.spec.Kind }
+
+// measurable: delivery of every single message can be awaited (no remuxer / merge buffering in between).
+func (a *attached) measurable(c Case) bool {
+	return a.rc != nil && !(a.spec.Kind == "rtmp" && c.Merge > 0)
+}
+
+type runner struct {
+	c      Case
+	s      *inproc.Server
+	p, p2  *lalclient.Publisher
+	cons   []*attached
+	c2     *attached
+	P, P2  []lalclient.Rec
+	lat    latency
+	inStal bool // the stall phase is running: slow messages are sampled for a parked fan-out
+}
+
+func nalHdrs(c gen.Codecs) (inter, key []byte) {
+	if c.Video == "hevc" {
+		return []byte{1 << 1, 1}, []byte{19 << 1, 1}
+	}
+	return []byte{0x41}, []byte{0x65}
+}
+
+func frame(c gen.Codecs, ts uint32, n int, seed uint32, key bool) gen.Item {
+	ih, kh := nalHdrs(c)
+	h := ih
+	if key {
+		h = kh
+	}
+	return gen.Item{Kind: "video", Ts: ts, Key: key, Nals: []gen.NalSpec{{Hdr: h, Len: n, Seed: seed, Serial: seed}}}
+}
+
+// mirror is the item the second stream carries where the first carries it: same shape, different bytes.
+func mirror(it gen.Item) gen.Item {
+	out := it
+	out.Nals = append([]gen.NalSpec(nil), it.Nals...)
+	for i := range out.Nals {
+		out.Nals[i].Seed += 50000000
+		out.Nals[i].Serial += 50000000
+	}
+	out.ASeed += 50000000
+	return out
+}
+
+func rec(it gen.Item, c gen.Codecs) lalclient.Rec {
+	pl := it.Payload(c)
+	if it.Kind == "meta" {
+		pl = gen.MetaBody(it.Variant)
+	}
+	return lalclient.Rec{Type: it.TypeID(), Ts: it.Ts, Payload: pl}
+}
+
+// send publishes one item on the first stream.
+func (r *runner) send(it gen.Item) *pbt.Violation {
+	r.P = append(r.P, rec(it, r.c.Codecs))
+	if err := r.p.SendItem(it, r.c.Codecs, 0); err != nil {
+		if v := r.s.PanicViolation(); v != nil {
+			return v
+		}
+		return pbt.V("publisher-disconnected", "item %d: %v", len(r.P)-1, err)
+	}
+	return nil
+}
+
+func (r *runner) send2(it gen.Item) *pbt.Violation {
+	r.P2 = append(r.P2, rec(it, r.c.Codecs))
+	if err := r.p2.SendItem(it, r.c.Codecs, 0); err != nil {
+		if v := r.s.PanicViolation(); v != nil {
+			return v
+		}
+		return pbt.V("S5/other-stream-publisher-disconnected", "item %d of the second stream: %v", len(r.P2)-1, err)
+	}
+	return nil
+}
+
+// grantSlow lets every slow consumer read its next Rate bytes.
+func (r *runner) grantSlow() {
+	for _, a := range r.cons {
+		if a.slowOn {
+			a.pc.grant(int64(a.spec.Rate))
+		}
+	}
+}
+
+// waitConsumed waits until lal has consumed what the publisher sent.  While the wait lasts, slow consumers keep
+// reading at their rate, and (in the stall phase) the fan-out goroutine is looked at: parked = evidence for the
+// latency rule.  Not consumed within DeliverTimeout while the fan-out is parked = the publisher is blocked.
+func (r *runner) waitConsumed(p *lalclient.Publisher, second bool) *pbt.Violation {
+	start := time.Now()
+	samples := 0
+	for !p.Conn.WaitPeerIdle(25 * time.Millisecond) {
+		r.grantSlow()
+		if r.inStal && samples < 3 {
+			samples++
+			if stuck, stack := parkedFanout(15 * time.Millisecond); stuck {
+				r.lat.evidence(second, stack)
+				samples = 3
+			}
+		}
+		if time.Since(start) > lalclient.DeliverTimeout {
+			if v := r.s.PanicViolation(); v != nil {
+				return v
+			}
+			if stuck, stack := pbt.StuckGoroutine("logic.(*Group).OnReadRtmpAvMsg", 2*time.Second); stuck {
+				sig := "S1/publisher-blocked-by-stalled-consumer"
+				if second {
+					sig = "S5/other-stream-publisher-blocked"
+				}
+				return pbt.V(sig, "a publisher's message (%d published so far) was not consumed within %v while consumers were stalled; fan-out is parked:\n%s", len(r.P), lalclient.DeliverTimeout, stack)
+			}
+			lalclient.Harness("publisher not drained and fan-out not parked (slow machine?)")
+		}
+	}
+	return nil
+}
+
+// step publishes one harness-made frame on the first stream (and its mirror on the second), waits until lal has
+// consumed it and every healthy consumer that can be followed message by message has decoded it, and records
+// the times in ph (nil = not timed).
+func (r *runner) step(it gen.Item, ph *phase) *pbt.Violation {
+	c := r.c
+	t0 := time.Now()
+	if v := r.send(it); v != nil {
+		return v
+	}
+	if v := r.waitConsumed(r.p, false); v != nil {
+		return v
+	}
+	if ph != nil {
+		ph.pub = append(ph.pub, time.Since(t0))
+	}
+	key := recKey(r.P[len(r.P)-1])
+	for i, a := range r.cons {
+		if a.spec.Stall || !a.measurable(c) || !a.rc.flowing() {
+			continue
+		}
+		idx, at := a.rc.waitKey(key, 0, lalclient.DeliverTimeout)
+		if idx < 0 {
+			if err := a.rc.Err(); err != nil {
+				return pbt.V("S3/framing/"+a.kind(), "healthy consumer %d: %v", i, err)
+			}
+			if a.rc.Ended() {
+				return pbt.V("S2/healthy-consumer-disconnected/"+a.kind(), "healthy consumer %d (%s) lost its connection while other consumers were stalled (published message %d)", i, a.kind(), len(r.P)-1)
+			}
+			return pbt.V("S2/healthy-consumer-starved/"+a.kind(), "healthy consumer %d (%s) did not receive published message %d %s within %v while other consumers were stalled", i, a.kind(), len(r.P)-1, r.P[len(r.P)-1], lalclient.DeliverTimeout)
+		}
+		if ph != nil {
+			ph.del(a, at.Sub(t0))
+		}
+	}
+	if !c.Second {
+		return nil
+	}
+	t0 = time.Now()
+	if v := r.send2(mirror(it)); v != nil {
+		return v
+	}
+	if v := r.waitConsumed(r.p2, true); v != nil {
+		return v
+	}
+	if ph != nil {
+		ph.pub2 = append(ph.pub2, time.Since(t0))
+	}
+	if a := r.c2; a.measurable(c) && a.rc.flowing() {
+		idx, at := a.rc.waitKey(recKey(r.P2[len(r.P2)-1]), 0, lalclient.DeliverTimeout)
+		if idx < 0 {
+			if err := a.rc.Err(); err != nil {
+				return pbt.V("S3/framing/"+a.kind(), "consumer of the second stream: %v", err)
+			}
+			return pbt.V("S5/other-stream-consumer-starved/"+a.kind(), "the consumer of the second stream (%s) did not receive message %d %s within %v while consumers of the first stream were stalled (ended=%v)", a.kind(), len(r.P2)-1, r.P2[len(r.P2)-1], lalclient.DeliverTimeout, a.rc.Ended())
+		}
+		if ph != nil {
+			ph.del(a, at.Sub(t0))
+		}
+	}
+	return nil
+}
+
+func (r *runner) attach(name string, k Cons, q int, sdpReady bool) (*attached, *pbt.Violation) {
+	s := r.s
+	a := &attached{spec: k, resumedAt: -1}
+	// the write queue size is read when a session is set up: small for the consumers that will stall (so that
+	// queue-full occurs within a few messages), lal's default for the healthy ones (a tiny queue would make a
+	// healthy consumer lose units in bursts although its transport is fine, which is not what S2 is about)
+	rtmp.VerifSetWriteChanSize(q)
+	rtsp.VerifSetCommandSessionWriteChanSize(q)
+	httpflv.SubSessionWriteChanSize, httpts.SubSessionWriteChanSize = q, q
+	switch k.Kind {
+	case "rtmp":
+		a.rc = newRtmpSub(s, "live", name)
+		a.conn, a.pc = a.rc.conn, a.rc.pc
+	case "flv":
+		a.rc = newFlvSub(s, "live", name, false)
+		a.conn, a.pc = a.rc.conn, a.rc.pc
+	case "wsflv":
+		a.rc = newFlvSub(s, "live", name, true)
+		a.conn, a.pc = a.rc.conn, a.rc.pc
+	case "ts":
+		a.ts = newTsSub(s, "live", name)
+		a.conn, a.pc = a.ts.conn, a.ts.pc
+	case "rtsp", "wsrtsp":
+		if !sdpReady {
+			return nil, nil // lal has no SDP yet (it analyses up to 16 messages of a single-track stream): nothing to subscribe to
+		}
+		rs, err := newRtspSub(s, name, k.Kind == "wsrtsp")
+		if err != nil {
+			if v := s.PanicViolation(); v != nil {
+				return nil, v
+			}
+			return nil, nil // no SDP yet (short stream): this consumer is left out of the case
+		}
+		a.rs = rs
+		a.conn, a.pc = rs.conn, rs.pc
+	}
+	if a.rc != nil && a.rc.joinErr != nil {
+		return nil, pbt.V("join-failed", "consumer (%s of %s): %v", k.Kind, name, a.rc.joinErr)
+	}
+	return a, nil
 }
 
 func run(c Case) *pbt.Violation {
@@ -127,74 +381,78 @@ func run(c Case) *pbt.Violation {
 		httpflv.SubSessionWriteTimeoutMs, httpts.SubSessionWriteTimeoutMs = prevFlvT, prevTsT
 		base.LogicCheckSessionAliveIntervalSec = prevInt
 	}()
-	s := inproc.New(inproc.Config{RtmpMergeWrite: c.Merge})
+	s := inproc.New(inproc.Config{RtmpMergeWrite: c.Merge, RtmpGopNum: c.Gop, FlvGopNum: c.Gop, TsGopNum: c.Gop})
 	defer s.Close()
+	r := &runner{c: c, s: s}
+	defer func() { // no reader goroutine of the harness stays parked on its pacer
+		for _, a := range r.cons {
+			a.pc.set(-1)
+		}
+	}()
 
-	// published sequence = items + (stall phase) extra inter frames + marker
-	items := append([]gen.Item(nil), c.Items...)
-	lastTs := uint32(0)
-	for _, it := range items {
+	// what the harness publishes after the generated items: (stall phase) inter frames + marker + tail
+	lastTs, firstTs := uint32(0), uint32(0)
+	for _, it := range c.Items {
 		if it.Kind != "meta" {
+			if firstTs == 0 {
+				firstTs = it.Ts
+			}
 			lastTs = it.Ts
 		}
 	}
-	nHdr := []byte{0x41}
-	kHdr := []byte{0x65}
-	if c.Codecs.Video == "hevc" {
-		nHdr, kHdr = []byte{1 << 1, 1}, []byte{19 << 1, 1}
+	var baseItems, stallItems, tailItems, sweepItems []gen.Item
+	if c.Baseline > 0 {
+		baseItems = append(baseItems, frame(c.Codecs, firstTs, 60, 88000, true))
+		for i := 0; i < c.Baseline; i++ {
+			baseItems = append(baseItems, frame(c.Codecs, firstTs+uint32(i), c.StallLen+i, uint32(88001+i), false))
+		}
 	}
-	stallFrom := len(items)
 	for i := 0; i < c.Queue+c.ExtraMsg; i++ {
 		lastTs += 40
-		items = append(items, gen.Item{Kind: "video", Ts: lastTs, Nals: []gen.NalSpec{{Hdr: nHdr, Len: 200 + i, Seed: uint32(7000 + i), Serial: uint32(7000 + i)}}})
+		stallItems = append(stallItems, frame(c.Codecs, lastTs, c.StallLen+i%c.maxBaseline(), uint32(7000+i), false))
 	}
-	markerIdx := len(items)
-	items = append(items, gen.Item{Kind: "video", Ts: lastTs + 40, Key: true, Nals: []gen.NalSpec{{Hdr: kHdr, Len: 60, Seed: 99999, Serial: 99999999}}})
-	items = append(items, gen.Item{Kind: "video", Ts: lastTs + 80, Nals: []gen.NalSpec{{Hdr: nHdr, Len: c.Merge + 64, Seed: 99998, Serial: 99999998}}})
+	marker := frame(c.Codecs, lastTs+40, 60, 99999, true)
+	marker.Nals[0].Serial = 99999999
+	tailItems = append(tailItems, marker, frame(c.Codecs, lastTs+80, c.Merge+64, 99998, false))
 	if c.Codecs.Audio != "" {
-		items = append(items, gen.Item{Kind: "audio", Ts: lastTs + 500, ALen: 20, ASeed: 99997})
+		tailItems = append(tailItems, gen.Item{Kind: "audio", Ts: lastTs + 500, ALen: 20, ASeed: 99997})
 	}
 	for i := 0; i < 17; i++ { // tail pad (TS probe queue / RTSP analysis)
-		items = append(items, gen.Item{Kind: "video", Ts: lastTs + 501 + uint32(i), Nals: []gen.NalSpec{{Hdr: nHdr, Len: 12, Seed: uint32(99900 + i), Serial: uint32(99900 + i)}}})
+		tailItems = append(tailItems, frame(c.Codecs, lastTs+501+uint32(i), 12, uint32(99900+i), false))
 	}
-	// two more frames, published between the two liveness sweeps (if any) so that healthy consumers stay write-alive
-	sweepExtraFrom := len(items)
+	// three more frames, published between the two liveness sweeps (if any) so that healthy consumers stay write-alive;
+	// the last one is only filler that pushes its predecessors through the merge-write buffer
 	for i := 0; i < 3; i++ {
-		// the last one is only filler that pushes its predecessors through the merge-write buffer
-		items = append(items, gen.Item{Kind: "video", Ts: lastTs + 600 + uint32(i), Nals: []gen.NalSpec{{Hdr: nHdr, Len: 30 + (i/2)*(c.Merge+64), Seed: uint32(99800 + i), Serial: uint32(99800 + i)}}})
+		sweepItems = append(sweepItems, frame(c.Codecs, lastTs+600+uint32(i), 30+(i/2)*(c.Merge+64), uint32(99800+i), false))
 	}
-	var P []lalclient.Rec
-	for _, it := range items {
-		pl := it.Payload(c.Codecs)
-		if it.Kind == "meta" {
-			pl = gen.MetaBody(it.Variant)
-		}
-		P = append(P, lalclient.Rec{Type: it.TypeID(), Ts: it.Ts, Payload: pl})
-	}
-	markerNal := items[markerIdx].Nals[0].Bytes()
-	markerKey := recKey(P[markerIdx])
+	markerNal := marker.Nals[0].Bytes()
+	markerKey := recKey(rec(marker, c.Codecs))
+	marker2Nal := mirror(marker).Nals[0].Bytes()
+	marker2Key := recKey(rec(mirror(marker), c.Codecs))
 
-	p := lalclient.NewPublisher(s, "live", stream, 4096)
-	if p.Err != nil {
-		return pbt.V("publish-refused", "%v", p.Err)
+	r.p = lalclient.NewPublisher(s, "live", stream, 4096)
+	if r.p.Err != nil {
+		return pbt.V("publish-refused", "%v", r.p.Err)
+	}
+	if c.Second {
+		r.p2 = lalclient.NewPublisher(s, "live", stream2, 4096)
+		if r.p2.Err != nil {
+			return pbt.V("S5/other-stream-publish-refused", "%v", r.p2.Err)
+		}
 	}
 	// the RTSP server answers DESCRIBE only once the SDP exists: publish the prologue first
 	pro := 0
 	for pro < len(c.Items) && (c.Items[pro].Kind == "meta" || c.Items[pro].Kind == "vsh" || c.Items[pro].Kind == "ash") {
 		pro++
 	}
-	send := func(k int) *pbt.Violation {
-		if err := p.SendItem(items[k], c.Codecs, 0); err != nil {
-			if v := s.PanicViolation(); v != nil {
+	for k := 0; k < pro; k++ {
+		if v := r.send(c.Items[k]); v != nil {
+			return v
+		}
+		if c.Second {
+			if v := r.send2(c.Items[k]); v != nil {
 				return v
 			}
-			return pbt.V("publisher-disconnected", "item %d: %v", k, err)
-		}
-		return nil
-	}
-	for k := 0; k < pro; k++ {
-		if v := send(k); v != nil {
-			return v
 		}
 	}
 	// lal's rtsp remuxer analyses up to 16 messages before the sdp exists when a track is missing; with both headers
@@ -208,70 +466,65 @@ func run(c Case) *pbt.Violation {
 	}
 	if needSdp && c.Codecs.Audio != "aac" {
 		for next < len(c.Items) && next < pro+18 {
-			if v := send(next); v != nil {
+			if v := r.send(c.Items[next]); v != nil {
 				return v
 			}
 			next++
 		}
 	}
-	p.WaitIdle()
-	var cons []*attached
-	for i, k := range c.Cons {
-		a := &attached{spec: k}
-		// the write queue size is read when a session is set up: small for the consumers that will stall (so that
-		// queue-full occurs within a few messages), lal's default for the healthy ones (a tiny queue would make a
-		// healthy consumer lose units in bursts although its transport is fine, which is not what S2 is about)
+	r.p.WaitIdle()
+	if c.Second {
+		r.p2.WaitIdle()
+	}
+	sdpReady := (c.Codecs.Video != "" && c.Codecs.Audio == "aac") || next-pro >= 17
+	for _, k := range c.Cons {
 		q := 1024
 		if k.Stall {
 			q = c.Queue
 		}
-		rtmp.VerifSetWriteChanSize(q)
-		rtsp.VerifSetCommandSessionWriteChanSize(q)
-		httpflv.SubSessionWriteChanSize, httpts.SubSessionWriteChanSize = q, q
-		switch k.Kind {
-		case "rtmp":
-			a.rc = lalclient.NewRtmpSub(s, "live", stream)
-			a.conn = a.rc.Conn
-		case "flv":
-			a.rc = lalclient.NewFlvSub(s, "live", stream, false)
-			a.conn = a.rc.Conn
-		case "wsflv":
-			a.rc = lalclient.NewFlvSub(s, "live", stream, true)
-			a.conn = a.rc.Conn
-		case "ts":
-			a.ts = lalclient.NewTsSub(s, "live", stream)
-			a.conn = a.ts.Conn
-		case "rtsp", "wsrtsp":
-			if !(c.Codecs.Video != "" && c.Codecs.Audio == "aac") && next-pro < 17 {
-				continue // lal has no SDP yet (it analyses up to 16 messages of a single-track stream): nothing to subscribe to
-			}
-			rs, err := newRtspSub(s, k.Kind == "wsrtsp")
-			if err != nil {
-				if v := s.PanicViolation(); v != nil {
-					return v
-				}
-				// no SDP yet (short stream): this consumer is left out of the case
-				continue
-			}
-			a.rs = rs
-			a.conn = rs.conn
+		a, v := r.attach(stream, k, q, sdpReady)
+		if v != nil {
+			return v
 		}
-		if a.rc != nil && a.rc.JoinErr() != nil {
-			return pbt.V("join-failed", "consumer %d (%s): %v", i, k.Kind, a.rc.JoinErr())
+		if a != nil {
+			r.cons = append(r.cons, a)
 		}
-		cons = append(cons, a)
 	}
-	// publish the generated part; consumers stall at their positions
-	// an RTSP consumer that has already been sent RTP when it stalls is "flowing" (not waiting for a key frame): every
-	// later packet is offered to its queue, so the small queue is certainly full after the stall phase
-	flowing := map[*attached]bool{}
+	cons := r.cons
 	bytesAtJoin := map[*attached]int64{}
 	for _, a := range cons {
 		bytesAtJoin[a] = a.conn.TotalReceived()
 	}
+	if c.Second {
+		a, v := r.attach(stream2, Cons{Kind: c.SecondKind, ResumeAt: -1, Ping: -1}, 1024, false)
+		if v != nil {
+			return v
+		}
+		a.second = true
+		r.c2 = a
+		defer a.pc.set(-1)
+	}
+
+	// baseline: the same frames as in the stall phase, before anybody stalls
+	for _, it := range baseItems {
+		if v := r.step(it, &r.lat.base); v != nil {
+			return v
+		}
+	}
+
+	// publish the generated part; consumers stall at their positions
+	// an RTSP consumer that has already been sent RTP when it stalls is "flowing" (not waiting for a key frame): every
+	// later packet is offered to its queue, so the small queue is certainly full after the stall phase
+	flowing := map[*attached]bool{}
 	stallOne := func(a *attached) {
 		if a.rs != nil && a.conn.TotalReceived() > bytesAtJoin[a] {
 			flowing[a] = true
+		}
+		if a.spec.Mode == "slow" {
+			a.pc.set(0)
+			a.conn.SetRecvWindow(a.spec.Window)
+			a.slowOn = true
+			return
 		}
 		a.conn.SetRecvWindow(0)
 	}
@@ -284,36 +537,65 @@ func run(c Case) *pbt.Violation {
 			}
 		}
 	}
-	for k := next; k < stallFrom; k++ {
-		p.WaitIdle()
+	for k := next; k < len(c.Items); k++ {
+		r.p.WaitIdle()
 		stallNow(k)
-		if v := send(k); v != nil {
+		r.grantSlow()
+		if v := r.send(c.Items[k]); v != nil {
 			return v
 		}
 	}
-	p.WaitIdle()
+	r.p.WaitIdle()
 	for _, a := range cons { // everyone who was to stall before the end of the generated part is stalled now
 		if a.spec.Stall && !stalled[a] {
 			stalled[a] = true
 			stallOne(a)
 		}
 	}
-	// stall phase: more messages than any queue holds; the publisher must not be blocked (S1)
-	for k := stallFrom; k < sweepExtraFrom; k++ {
-		if v := send(k); v != nil {
+	// stall phase: more messages than any queue holds; the publisher must not be blocked nor delayed (S1), healthy
+	// consumers get every message (S2), the second stream does not notice (S5)
+	resumeOne := func(a *attached) {
+		a.slowOn = false
+		a.conn.SetRecvWindow(-1)
+		a.pc.set(-1)
+	}
+	r.inStal = true
+	for j, it := range stallItems {
+		for _, a := range cons {
+			if a.spec.Stall && a.spec.End == "resume" && a.spec.ResumeAt == j {
+				a.resumedAt = len(r.P)
+				resumeOne(a)
+			}
+			if a.rs != nil && a.spec.Ping == j {
+				// an RTSP client keeps its session alive from a timer, whether or not it is reading
+				_, _ = a.rs.cl.WriteRequest("OPTIONS", a.rs.uri, nil, nil)
+				a.conn.WaitPeerIdle(lalclient.IdleTimeout)
+			}
+		}
+		r.grantSlow()
+		var ph *phase
+		if j > c.Queue { // the queues of the stalled consumers are full from here on
+			ph = &r.lat.stall
+		}
+		if v := r.step(it, ph); v != nil {
 			return v
 		}
-		if !p.Conn.WaitPeerIdle(lalclient.DeliverTimeout) {
-			if v := s.PanicViolation(); v != nil {
+		if ph != nil && len(ph.pub) >= minSamples {
+			if v := r.lat.judge(r, false); v != nil {
 				return v
 			}
-			if stuck, stack := pbt.StuckGoroutine("logic.(*Group).OnReadRtmpAvMsg", 2*time.Second); stuck {
-				return pbt.V("S1/publisher-blocked-by-stalled-consumer", "the publisher's message %d was not consumed within %v while consumers were stalled; fan-out is parked:\n%s", k, lalclient.DeliverTimeout, stack)
-			}
-			lalclient.Harness("publisher not drained and fan-out not parked (slow machine?)")
+		}
+	}
+	r.inStal = false
+	for _, it := range tailItems {
+		if v := r.step(it, nil); v != nil {
+			return v
 		}
 	}
 	if v := s.PanicViolation(); v != nil {
+		return v
+	}
+	if v := r.lat.judge(r, true); v != nil {
 		return v
 	}
 	// (S2) healthy consumers have the marker
@@ -321,7 +603,12 @@ func run(c Case) *pbt.Violation {
 		if a.spec.Stall {
 			continue
 		}
-		if v := waitMarker(a, i, markerKey, markerNal, c, "S2/healthy-consumer-starved"); v != nil {
+		if v := waitMarker(a, i, markerKey, markerNal, "S2/healthy-consumer-starved"); v != nil {
+			return v
+		}
+	}
+	if r.c2 != nil {
+		if v := waitMarker(r.c2, -1, marker2Key, marker2Nal, "S5/other-stream-consumer-starved"); v != nil {
 			return v
 		}
 	}
@@ -332,13 +619,22 @@ func run(c Case) *pbt.Violation {
 	// it is queued, so a stalled RTSP consumer only looks dead to the sweep once its queue is full)
 	wroteAtTick1 := map[string]uint64{}
 	nothingWritten := map[string]bool{}
+	for _, a := range cons { // a slow consumer whose stall does not end by resuming stops reading altogether now
+		if a.spec.Stall && a.spec.Mode == "slow" && a.spec.End != "resume" {
+			a.slowOn = false
+			a.pc.set(0)
+			a.conn.SetRecvWindow(0)
+		}
+	}
 	for i, a := range cons {
 		if !a.spec.Stall {
 			continue
 		}
 		switch a.spec.End {
 		case "resume":
-			a.conn.SetRecvWindow(-1)
+			if a.resumedAt < 0 {
+				resumeOne(a)
+			}
 		case "write-timeout":
 			// 150 ms write deadline on HTTP sessions: the blocked write fails, the session is disposed
 			if !waitClosed(a, 15*time.Second) {
@@ -349,28 +645,37 @@ func run(c Case) *pbt.Violation {
 			}
 		case "sweep":
 			if !swept {
-				g := s.SM.GetGroup("live", stream)
-				if g == nil {
-					lalclient.Harness("group missing")
-				}
-				// two sweeps with no bytes written in between
-				s.Call("Tick", func() { g.Tick(1) })
+				// two sweeps of every group with no bytes written to the stalled consumers in between
+				s.Call("Tick", func() { s.SM.VerifTick(1) })
 				for _, ss := range s.SM.StatGroup(stream).StatSubs {
 					wroteAtTick1[ss.RemoteAddr] = ss.WroteBytesSum
 				}
 				// data keeps flowing between the sweeps: healthy consumers are written to, stalled ones are not
-				for k := sweepExtraFrom; k < len(items); k++ {
-					if v := send(k); v != nil {
+				for _, it := range sweepItems {
+					if v := r.send(it); v != nil {
 						return v
 					}
+					if c.Second {
+						if v := r.send2(mirror(it)); v != nil {
+							return v
+						}
+					}
 				}
-				p.WaitIdle()
-				lastKey := recKey(P[len(P)-2])
+				r.p.WaitIdle()
+				if c.Second {
+					r.p2.WaitIdle()
+				}
+				lastKey := recKey(r.P[len(r.P)-2])
 				for hi, h := range cons {
 					if !h.spec.Stall && h.rc != nil {
-						if h.rc.WaitFor(func(r lalclient.Rec) bool { return recKey(r) == lastKey }, lalclient.DeliverTimeout) < 0 {
+						if idx, _ := h.rc.waitKey(lastKey, 0, lalclient.DeliverTimeout); idx < 0 {
 							return pbt.V("S2/healthy-consumer-starved/"+h.spec.Kind, "healthy consumer %d did not receive the frames published between the two sweeps", hi)
 						}
+					}
+				}
+				if r.c2 != nil && r.c2.rc != nil {
+					if idx, _ := r.c2.rc.waitKey(recKey(r.P2[len(r.P2)-2]), 0, lalclient.DeliverTimeout); idx < 0 {
+						return pbt.V("S5/other-stream-consumer-starved/"+r.c2.kind(), "the consumer of the second stream did not receive the frames published between the two sweeps")
 					}
 				}
 				time.Sleep(2 * time.Millisecond) // lal's writer goroutines update the byte counters after the write returns
@@ -379,7 +684,7 @@ func run(c Case) *pbt.Violation {
 						nothingWritten[ss.RemoteAddr] = true
 					}
 				}
-				s.Call("Tick", func() { g.Tick(2) })
+				s.Call("Tick", func() { s.SM.VerifTick(2) })
 				swept = true
 				for hi, h := range cons {
 					if !h.spec.Stall && h.rc != nil {
@@ -387,6 +692,12 @@ func run(c Case) *pbt.Violation {
 						if h.rc.Ended() {
 							return pbt.V("S4/healthy-consumer-swept/"+h.spec.Kind, "healthy consumer %d (%s) was disconnected by the liveness sweep although data was written to it between the two sweeps", hi, h.spec.Kind)
 						}
+					}
+				}
+				if r.c2 != nil && r.c2.rc != nil {
+					time.Sleep(time.Millisecond)
+					if r.c2.rc.Ended() {
+						return pbt.V("S5/other-stream-consumer-swept/"+r.c2.kind(), "the healthy consumer of the second stream was disconnected by the liveness sweep although data was written to it between the two sweeps")
 					}
 				}
 			}
@@ -402,6 +713,7 @@ func run(c Case) *pbt.Violation {
 		switch a.spec.End {
 		case "sweep":
 			a.conn.SetRecvWindow(-1) // let the client see the close
+			a.pc.set(-1)
 			if !nothingWritten[a.conn.LocalAddr().String()] && !flowing[a] {
 				pbt.Count("sweep-not-judged-bytes-were-accounted", 1)
 				continue
@@ -411,33 +723,47 @@ func run(c Case) *pbt.Violation {
 			}
 		case "write-timeout":
 			a.conn.SetRecvWindow(-1)
+			a.pc.set(-1)
 		}
 	}
-	// the publisher leaves; resumed consumers then see whatever was queued for them
-	if swept {
-		// the sweep also looked at healthy sessions: they received data between the two ticks? no — nothing was
-		// published between them, so healthy sessions may have been disposed as well; that is the sweep's rule for
-		// idle streams and not judged here.
+	// (S3) a consumer that resumed in the middle of the stall phase and is still connected gets the continuation
+	for i, a := range cons {
+		if a.resumedAt < 0 || a.rc == nil {
+			continue
+		}
+		if v := r.checkContinuation(a, i); v != nil {
+			return v
+		}
 	}
-	p.Close()
-	p.Conn.WaitPeerDone(lalclient.IdleTimeout)
+	// the publishers leave; resumed consumers then see whatever was queued for them
+	r.p.Close()
+	r.p.Conn.WaitPeerDone(lalclient.IdleTimeout)
+	if c.Second {
+		r.p2.Close()
+		r.p2.Conn.WaitPeerDone(lalclient.IdleTimeout)
+	}
 	// (S3) framing and unit integrity of every consumer, stalled or not
-	index := map[[32]byte][]int{}
-	for i, r := range P {
-		k := recKey(r)
-		index[k] = append(index[k], i)
-	}
+	index := indexOf(r.P)
 	for i, a := range cons {
 		// give resumed consumers the chance to drain: wait for EOF or quiescence
 		settle(a)
-		if v := checkFraming(c, a, i, P, index); v != nil {
+		if v := checkFraming(a, i, index); v != nil {
+			return v
+		}
+	}
+	if r.c2 != nil {
+		settle(r.c2)
+		if v := checkFraming(r.c2, -1, indexOf(r.P2)); v != nil {
+			return v
+		}
+		if v := r.checkComplete(r.c2); v != nil {
 			return v
 		}
 	}
 	// non-triviality is measured: did a stalled consumer miss units?
 	for _, a := range cons {
 		if a.spec.Stall && a.rc != nil {
-			if len(a.rc.Recs()) < len(P)/2 {
+			if len(a.rc.Recs()) < len(r.P)/2 {
 				pbt.Count("stalled-consumer-missed-units", 1)
 			}
 		}
@@ -445,79 +771,104 @@ func run(c Case) *pbt.Violation {
 	return nil
 }
 
-func newRtspSub(s *inproc.Server, ws bool) (*rtspSub, error) {
-	var conn *memconn.Conn
-	var cl *rtspref.Client
-	var wss *wsref.Stream
-	if ws {
-		conn = s.WsRtspConn()
-		wss = wsref.NewStream(conn)
-		cl = rtspref.NewClient(wss)
-	} else {
-		conn = s.RtspConn()
-		cl = rtspref.NewClient(conn)
+func (c Case) maxBaseline() int {
+	if c.Baseline > 0 {
+		return c.Baseline // the stall-phase frames have exactly the sizes of the baseline frames
 	}
-	_ = conn.SetReadDeadline(time.Now().Add(lalclient.IdleTimeout))
-	uri := "rtsp://127.0.0.1:5544/live/" + stream
-	done := make(chan error, 1)
-	var body []byte
-	go func() {
-		r, err := cl.Describe(uri)
-		if err == nil && r.Status != 200 {
-			err = fmt.Errorf("describe %d", r.Status)
-		}
-		if err == nil {
-			body = r.Body
-		}
-		done <- err
-	}()
-	select {
-	case err := <-done:
-		if err != nil {
-			_ = conn.Close()
-			return nil, err
-		}
-	case <-time.After(3 * time.Second):
-		_ = conn.Close()
-		return nil, fmt.Errorf("no sdp yet")
+	return 1 << 30
+}
+
+func indexOf(P []lalclient.Rec) map[[32]byte][]int {
+	index := map[[32]byte][]int{}
+	for i, r := range P {
+		k := recKey(r)
+		index[k] = append(index[k], i)
 	}
-	if err := cl.SetupPlay(uri, rtspref.SdpControls(body)); err != nil {
-		_ = conn.Close()
-		return nil, err
+	return index
+}
+
+// checkContinuation: a consumer that resumed reading in the middle of the stall phase and is still connected
+// must be given units published after it resumed (which ones is not asserted: its queue may still have been full
+// for a while).  Its connection may have been closed by lal before it resumed (write timeout): not judged then.
+func (r *runner) checkContinuation(a *attached, i int) *pbt.Violation {
+	after := map[[32]byte]bool{}
+	for k := a.resumedAt; k < len(r.P); k++ {
+		after[recKey(r.P[k])] = true
 	}
-	_ = conn.SetReadDeadline(time.Time{})
-	conn.WaitPeerIdle(lalclient.IdleTimeout)
-	rs := &rtspSub{ws: wss, conn: conn, cl: cl, frames: make(chan rtspref.Frame, 100000), err: make(chan error, 1)}
-	go func() {
-		for {
-			f, err := cl.ReadFrame()
-			if err != nil {
-				rs.err <- err
-				close(rs.frames)
-				return
+	has := func() bool {
+		for _, x := range a.rc.Recs() {
+			if !isHeaderRec(x) && after[recKey(x)] {
+				return true
 			}
-			rs.frames <- f
 		}
-	}()
-	return rs, nil
+		return false
+	}
+	deadline := time.Now().Add(lalclient.DeliverTimeout)
+	for !has() {
+		if a.rc.Ended() {
+			pbt.Count("resumed-consumer-was-disconnected", 1)
+			return nil
+		}
+		if err := a.rc.Err(); err != nil {
+			return nil // reported by the framing check
+		}
+		if time.Now().After(deadline) {
+			return pbt.V("S3/resumed-consumer-gets-nothing/"+a.kind(), "consumer %d (%s) resumed reading before published message %d and is still connected, but none of the %d messages published after that reached it (%d records decoded, %d bytes received, %d unread)\n%s", i, a.kind(), a.resumedAt, len(r.P)-a.resumedAt, a.rc.count(), a.conn.TotalReceived(), a.conn.Pending(), debugDump()+fmt.Sprintf(" self=%s stat=%+v", a.conn.LocalAddr(), r.s.SM.StatGroup(stream)))
+		}
+		a.rc.waitCount(a.rc.count(), 200*time.Millisecond)
+	}
+	pbt.Count("resumed-consumer-continuation-seen", 1)
+	return nil
+}
+
+// checkComplete: the consumer of the second stream receives, once it has been released by a key frame, every
+// message published on its stream (rtmp / flv consumers; a TS consumer is judged through the end marker).
+func (r *runner) checkComplete(a *attached) *pbt.Violation {
+	if a.rc == nil || (a.spec.Kind == "rtmp" && r.c.Merge > 0) {
+		return nil
+	}
+	got := map[[32]byte]bool{}
+	first := -1
+	recs := a.rc.Recs()
+	idx := indexOf(r.P2)
+	for _, x := range recs {
+		k := recKey(x)
+		got[k] = true
+		if first < 0 && x.Type == 9 && !isHeaderRec(x) && len(idx[k]) > 0 {
+			first = idx[k][0]
+		}
+	}
+	if first < 0 {
+		return nil
+	}
+	// messages still in flight when the publisher left are not judged: up to the last sweep frame that was awaited
+	last := len(r.P2) - 1
+	for last >= 0 && !got[recKey(r.P2[last])] {
+		last--
+	}
+	for k := first; k <= last; k++ {
+		if !got[recKey(r.P2[k])] {
+			return pbt.V("S5/other-stream-consumer-lost-unit/"+a.kind(), "the healthy consumer of the second stream (%s) did not receive message %d %s of its stream although it received earlier and later ones", a.kind(), k, r.P2[k])
+		}
+	}
+	return nil
 }
 
 func waitClosed(a *attached, d time.Duration) bool {
 	switch {
 	case a.rc != nil:
 		return a.rc.WaitEnded(d)
-	case a.ts != nil:
-		return a.conn.WaitPeerDone(d)
 	default:
 		return a.conn.WaitPeerDone(d)
 	}
 }
 
-func waitMarker(a *attached, i int, markerKey [32]byte, markerNal []byte, c Case, sig string) *pbt.Violation {
+func waitMarker(a *attached, i int, markerKey [32]byte, markerNal []byte, sig string) *pbt.Violation {
 	ok := false
 	switch {
 	case a.rc != nil:
-		ok = a.rc.WaitFor(func(r lalclient.Rec) bool { return recKey(r) == markerKey }, lalclient.DeliverTimeout) >= 0
+		idx, _ := a.rc.waitKey(markerKey, 0, lalclient.DeliverTimeout)
+		ok = idx >= 0
 		if !ok && a.rc.Err() != nil {
 			return pbt.V("S3/framing/"+a.spec.Kind, "consumer %d: %v", i, a.rc.Err())
 		}
@@ -585,35 +936,43 @@ func settle(a *attached) {
 	}
 }
 
-func checkFraming(c Case, a *attached, ci int, P []lalclient.Rec, index map[[32]byte][]int) *pbt.Violation {
-	who := fmt.Sprintf("consumer %d (%s stall=%v at=%d end=%s)", ci, a.spec.Kind, a.spec.Stall, a.spec.StallAt, a.spec.End)
+func checkFraming(a *attached, ci int, index map[[32]byte][]int) *pbt.Violation {
+	who := fmt.Sprintf("consumer %d (%s mode=%s at=%d end=%s resume_at=%d)", ci, a.spec.Kind, a.spec.Mode, a.spec.StallAt, a.spec.End, a.spec.ResumeAt)
+	open := !a.spec.Stall || a.spec.End == "resume" // the connection was not closed by a sweep / write timeout that the case asked for
 	switch {
 	case a.rc != nil:
 		if err := a.rc.Err(); err != nil {
 			return pbt.V("S3/framing/"+a.spec.Kind, "%s: %v", who, err)
 		}
 		// a connection closed by lal (sweep / timeout) may end inside a unit: that is the transport's cut, not lal's
-		// framing; judged only for consumers whose connection stayed open (resume / healthy)
-		cur := -1
-		for n, r := range a.rc.Recs() {
-			cd := index[recKey(r)]
-			if len(cd) == 0 {
-				return pbt.V("S3/unit-altered/"+a.spec.Kind, "%s: record %d %s is not a published message (a unit was cut or merged)", who, n, r)
+		// framing.  A connection that is still open holds no incomplete unit once everything has arrived: half a
+		// message with the other half dropped is a torn message
+		if open && !a.rc.Ended() {
+			for n := 0; n < 400 && a.rc.partialBytes() > 0; n++ {
+				time.Sleep(5 * time.Millisecond)
 			}
-			isHdr := r.Type == 18 || (r.Type == 9 && len(r.Payload) > 1 && r.Payload[1] == 0 && r.Payload[0]&0x80 == 0) || (r.Type == 8 && len(r.Payload) > 1 && r.Payload[0]>>4 == 10 && r.Payload[1] == 0) ||
-				(r.Type == 9 && len(r.Payload) > 0 && r.Payload[0]&0x80 != 0 && r.Payload[0]&0x0f == 0)
-			if isHdr {
+			if n := a.rc.partialBytes(); n > 0 && !a.rc.Ended() {
+				return pbt.V("S3/torn-unit/"+a.spec.Kind, "%s: the connection is open and quiet, and the received stream ends with %d bytes of an incomplete unit (the rest of it was never sent)", who, n)
+			}
+		}
+		cur := -1
+		for n, x := range a.rc.Recs() {
+			cd := index[recKey(x)]
+			if len(cd) == 0 {
+				return pbt.V("S3/unit-altered/"+a.spec.Kind, "%s: record %d %s is not a published message (a unit was cut or merged)", who, n, x)
+			}
+			if isHeaderRec(x) {
 				continue
 			}
 			pick := -1
-			for _, x := range cd {
-				if x > cur {
-					pick = x
+			for _, y := range cd {
+				if y > cur {
+					pick = y
 					break
 				}
 			}
 			if pick < 0 {
-				return pbt.V("S3/unit-duplicated-or-reordered/"+a.spec.Kind, "%s: record %d %s arrives after published index %d", who, n, r, cur)
+				return pbt.V("S3/unit-duplicated-or-reordered/"+a.spec.Kind, "%s: record %d %s arrives after published index %d", who, n, x, cur)
 			}
 			cur = pick
 		}
@@ -623,7 +982,7 @@ func checkFraming(c Case, a *attached, ci int, P []lalclient.Rec, index map[[32]
 			return nil
 		}
 		whole := len(body) / 188 * 188
-		if whole != len(body) && (a.spec.End == "resume" || !a.spec.Stall) {
+		if whole != len(body) && open && !a.ts.Ended() {
 			return pbt.V("S3/framing/ts", "%s: body is %d bytes, not a whole number of 188-byte packets", who, len(body))
 		}
 		res, err := tsref.Demux(body[:whole], tsref.Options{})
@@ -657,18 +1016,30 @@ func checkFraming(c Case, a *attached, ci int, P []lalclient.Rec, index map[[32]
 	return nil
 }
 
+func (c *sub) partialBytes() int {
+	c.mu.Lock()
+	defer c.mu.Unlock()
+	return c.partial
+}
+
 func isClosed(err error) bool {
 	s := err.Error()
 	return bytes.Contains([]byte(s), []byte("EOF")) || bytes.Contains([]byte(s), []byte("closed"))
 }
 
 func classify(c Case) (bool, []string) {
-	labels := []string{fmt.Sprintf("queue:%d", c.Queue)}
+	labels := []string{fmt.Sprintf("queue:%d", c.Queue), fmt.Sprintf("gop:%d", c.Gop), fmt.Sprintf("stall-len:%d", c.StallLen)}
 	stalled, healthy := 0, 0
 	for _, k := range c.Cons {
 		if k.Stall {
 			stalled++
-			labels = append(labels, "stalled:"+k.Kind, "end:"+k.End)
+			labels = append(labels, k.Mode+":"+k.Kind, "end:"+k.End)
+			if k.ResumeAt >= 0 {
+				labels = append(labels, "resume-mid-stall", "resume-mid-stall:"+k.Kind)
+			}
+			if k.Ping >= 0 {
+				labels = append(labels, "keep-alive-while-stalled")
+			}
 		} else {
 			healthy++
 			labels = append(labels, "healthy:"+k.Kind)
@@ -676,6 +1047,23 @@ func classify(c Case) (bool, []string) {
 	}
 	if c.Merge > 0 {
 		labels = append(labels, "merge-write")
+	}
+	if c.Baseline > 0 {
+		labels = append(labels, "latency-judged")
+	}
+	if c.Second {
+		labels = append(labels, "second-stream", "second-stream:"+c.SecondKind)
+	}
+	big := false
+	for _, it := range c.Items {
+		for _, n := range it.Nals {
+			if n.Len > 4096 {
+				big = true
+			}
+		}
+	}
+	if big || c.StallLen > 4096 {
+		labels = append(labels, "multi-chunk-message")
 	}
 	labels = append(labels, fmt.Sprintf("nstalled:%d", stalled))
 	return stalled > 0 && healthy > 0, uniq(labels)
@@ -696,6 +1084,16 @@ func uniq(in []string) []string {
 func TestStalledConsumer(t *testing.T) {
 	pbt.Run(t, pbt.Spec[Case]{
 		ID: "C15", Name: "stalled-consumer", Gen: genCase, Run: run, Classify: classify,
-		Quick: 300, Thorough: 3000,
+		Quick: 200, Thorough: 2000,
 	})
+}
+
+var _ = rtspref.Frame{}
+
+func debugDump() string {
+	if os.Getenv("C15_DEBUG") == "" {
+		return ""
+	}
+	_ = os.WriteFile("/tmp/c15-goroutines.txt", []byte(pbt.AllGoroutines()), 0o644)
+	return "(goroutines in /tmp/c15-goroutines.txt)"
 }
